@@ -853,6 +853,17 @@ fn c07_symlinked_temp(ctx: &mut Ctx, r: &mut StdRng) {
             break;
         }
     }
+    // ... and building again over the links that clean left dangling gives the first build's tree
+    let mode = if r.gen_bool(0.5) { Mode::Build } else { Mode::InMemoryBuild };
+    let b2 = run_at(&root, &case, mode.clone(), true);
+    ctx.evals += 1;
+    if !matches!(b2.verdict, Verdict::Watchdog) {
+        if !b2.verdict.is_ok() {
+            ctx.violation("C07:symlinked-temp:build-failed", format!("building again ({}) after build + clean failed: {}", crate::run::mode_name(&mode), b2.verdict.short()), cj.clone());
+        } else if snap(&root).bytes() != s1.bytes() {
+            ctx.violation("C07:symlinked-temp:rebuild-differs", format!("building again ({}) after build + clean does not give the tree of the first build", crate::run::mode_name(&mode)), cj.clone());
+        }
+    }
     ctx.distinct.insert(crate::util::hash_str(&cj.to_string()));
     ctx.scratch.discard(&root);
 }
@@ -1115,6 +1126,49 @@ fn c08_crashes(ctx: &mut Ctx, b: &Built, r: &mut StdRng, random_kills: usize) {
     }
 }
 
+/// History inside one process, on one directory: the project was built (several times) in `b.root`;
+/// now plain included files and one source are edited and the project is built again in place. The
+/// result must be what the edited sources prescribe (reference model): nothing remembered from the
+/// earlier runs - on disk or in the library's memory - may leak into it.
+fn c08_edit_history(ctx: &mut Ctx, b: &Built, r: &mut StdRng) {
+    let mut files = b.case.files.clone();
+    let mut edited = 0;
+    let plain: Vec<String> = files.keys().filter(|k| !model::is_txtpp(k) && k.starts_with("inc_") && !k.contains("big")).cloned().collect();
+    for k in plain {
+        if r.gen_bool(0.7) {
+            let t = String::from_utf8_lossy(&files[&k]).to_string();
+            files.insert(k, t.replace("\n", " (edited)\n").replace("\r (edited)", " (edited)\r").into_bytes());
+            edited += 1;
+        }
+    }
+    let srcs = model::sources(&files);
+    let s = srcs[r.gen_range(0..srcs.len())].clone();
+    let mut t = String::from_utf8_lossy(&files[&s]).to_string();
+    let le = if t.contains("\r\n") { "\r\n" } else { "\n" };
+    if !t.is_empty() && !t.ends_with('\n') {
+        t.push_str(le);
+    }
+    t.push_str("line appended by a later edit");
+    t.push_str(le);
+    files.insert(s, t.into_bytes());
+    let mut case2 = b.case.clone();
+    case2.files = files;
+    case2.mode = if r.gen_bool(0.5) { Mode::Build } else { Mode::InMemoryBuild };
+    let res = run_project_at(ctx, &case2, &b.root, false);
+    ctx.count("edit_histories_in_the_same_process_and_directory", 1);
+    ctx.count("plain_included_files_edited", edited);
+    if res.expect.out_of_domain.is_some() {
+        return;
+    }
+    for (sig, msg) in judge_project(&case2, &res) {
+        let mut cj = case2.to_json();
+        cj.as_object_mut().unwrap().insert("step".into(), json!("edit-history"));
+        cj.as_object_mut().unwrap().insert("files_before_the_edit".into(), files_json(&b.case.files));
+        ctx.violation(format!("C08:edit-history:{sig}"), format!("build, edit the sources (included plain files and one source), build again in the same directory and process ({}): {msg}", crate::run::mode_name(&case2.mode)), cj);
+        break;
+    }
+}
+
 fn run_c08(ctx: &mut Ctx) {
     let mut r = StdRng::seed_from_u64(ctx.shard_seed());
     let n = ctx.tier.pick(8, 300);
@@ -1132,6 +1186,7 @@ fn run_c08(ctx: &mut Ctx) {
         if i % ctx.tier.pick(4, 3) == 0 {
             c08_crashes(ctx, &b, &mut r, ctx.tier.pick(4, 24));
         }
+        c08_edit_history(ctx, &b, &mut r);
         if i == 0 {
             ctx.sample(|| json!({"sources": model::sources(&b.case.files), "generated_paths": b.generated(), "prestate_classes": PRESTATES}));
         }
@@ -1140,6 +1195,22 @@ fn run_c08(ctx: &mut Ctx) {
 }
 
 fn replay_c08(ctx: &mut Ctx, v: &Value) {
+    if v["step"].as_str() == Some("edit-history") {
+        // build the project as it was before the edit, then the recorded (edited) one in place
+        let case2 = ProjectCase::from_json(v);
+        let mut case1 = case2.clone();
+        case1.files = crate::util::files_from_json(&v["files_before_the_edit"]);
+        case1.mode = Mode::Build;
+        let root = ctx.scratch.fresh();
+        let first = run_project_at(ctx, &case1, &root, false);
+        println!("  build before the edit: {}", first.outcome.verdict.short());
+        let res = run_project_at(ctx, &case2, &root, false);
+        println!("  build after the edit: {}", res.outcome.verdict.short());
+        for (sig, msg) in judge_project(&case2, &res) {
+            ctx.violation(format!("C08:edit-history:{sig}"), msg, v.clone());
+        }
+        return;
+    }
     let case = ProjectCase::from_json(v);
     let mut clean_case = case.clone();
     clean_case.prestate = Files::new();
@@ -1518,7 +1589,10 @@ fn allowed_paths(files: &Files, selected: &BTreeSet<String>, follow_deps: bool) 
         for l in text.lines() {
             if let Some(i) = l.find("TXTPP#temp ") {
                 if let Some(p) = model::norm_path(&dir, l[i + 11..].trim()) {
-                    allowed.insert(p);
+                    // a `.txtpp` file is never a legitimate temp target: sources keep their bytes
+                    if !model::is_txtpp(&p) {
+                        allowed.insert(p);
+                    }
                 }
             }
             if follow_deps {
@@ -1805,7 +1879,22 @@ fn run_c10(ctx: &mut Ctx) {
             c10_symlinked_output(ctx, &mut r);
         }
         let opts = GenOpts { error_pct: if i % 3 == 0 { 15 } else { 0 }, ..GenOpts::default() };
-        let p = gen_project(&mut r, &opts);
+        let mut p = gen_project(&mut r, &opts);
+        if i % 3 == 0 && r.gen_bool(0.4) {
+            // an (erroneous) temp directive naming an existing source of the `stem.txtpp.ext` shape:
+            // whatever the verdict, that source must keep its bytes in every mode
+            let srcs = model::sources(&p.files);
+            let s = srcs[r.gen_range(0..srcs.len())].clone();
+            if let Some(victim) = srcs.iter().find(|x| **x != s && !x.ends_with(".txtpp")) {
+                let mut text = String::from_utf8_lossy(&p.files[&s]).to_string();
+                if !text.is_empty() && !text.ends_with('\n') {
+                    text.push('\n');
+                }
+                text.push_str(&format!("<!--c TXTPP#temp {}\n<!--c overwritten\n", crate::gen::rel(model::dir_of(&s), victim)));
+                p.files.insert(s, text.into_bytes());
+                ctx.count("projects_with_a_temp_directive_naming_a_source", 1);
+            }
+        }
         let pre = model::evaluate(&p.files, "/nonexistent", p.trailing, &model::sources(&p.files));
         if pre.out_of_domain.is_some() {
             continue;
